@@ -465,7 +465,11 @@ func stderrError(stderr []byte) string {
 
 func Run(c *core.Ctx) core.FinishOpts {
 	selftest := os.Getenv("VERIF_SELFTEST") == "1"
-	runner := cli.NewRunner(c.BinDir, c.Scratch)
+	binDir := c.BinDir
+	if d := os.Getenv("VERIF_OCTOSQL_BINDIR"); d != "" { // validation aid: judge another build of octosql (e.g. a patched scratch copy)
+		binDir = d
+	}
+	runner := cli.NewRunner(binDir, c.Scratch)
 	fs := faults()
 	os_ := ops()
 
